@@ -231,3 +231,7 @@ def run(ck):
 # session 5 (round 9, D24)
 EXPLANATION = EXPLANATION + " " + (
     'ORDER/arm-store-before-suspend: in deflate(), a constant store of a header arm (`adler = 1`, `gzindex = 0`) is not behind a branch, taken after the arm stored its new status, whose other side returns. FLOW/crc-start (shared with C09): the portable fallback of Crc32Fold::fold continues the running value.')
+
+# session 5 (round 10)
+EXPLANATION = EXPLANATION + " " + (
+    "FIELD/copy-identity (shared with C14): a stream continued on a deflateCopy stays well-formed because the copy has the source's bit buffer.")
